@@ -625,7 +625,7 @@ class URL:
         if not (scheme := self._scheme):
             raise ValueError("URL should have scheme")
         if "@" in netloc:
-            encoded_host = self.host_subcomponent
+            encoded_host = self.host_subcomponent or ""
             netloc = make_netloc(None, None, encoded_host, self.explicit_port)
         elif not self._path and not self._query and not self._fragment:
             return self
